@@ -39,6 +39,9 @@ class Env:
         self.version = 0
         self.updates = 0
         self.scores, self.nfs, self.pens = {}, {}, {}
+        self.blocks = 1                   # > 1: the validation score is evaluated by blocks of rows (mini-batches), see score()
+        self.n_rows = 2
+        self.block_scores, self.whole = {}, {}
         self.concrete = concrete          # dict of scripted values for the concrete replay, or None
         self.nan_allowed = nan_allowed
         self.outer_started = 0
@@ -46,15 +49,39 @@ class Env:
 
     # values keyed by the weight version ---------------------------------------------------------------------------
     def score(self, v):
+        """the validation score of weight version v: the size-weighted mean of the GEMINI of each block of rows (one block = the
+        whole data unless mini-batches are configured)"""
         if v not in self.scores:
             if self.concrete is not None:
-                self.scores[v] = self.concrete["score"].get(str(v), 0.5)
+                if self.blocks > 1:
+                    bs = [self.concrete["score"].get(f"{v}:{r}", self.concrete["score"].get(str(v), 0.5)) for r in range(self.blocks)]
+                    self.block_scores[v] = bs
+                    self.scores[v] = sum(bs) / self.blocks
+                else:
+                    self.scores[v] = self.concrete["score"].get(str(v), 0.5)
             else:
                 if self.nan_allowed and v > 0 and bool(core.SymBool(__import__("z3").Bool(f"nan{v}"))):
                     self.scores[v] = float("nan")
+                    self.block_scores[v] = [float("nan")] * self.blocks
+                elif self.blocks > 1:
+                    bs = [core.var(f"s{v}b{r}", "+") for r in range(self.blocks)]
+                    self.block_scores[v] = bs
+                    self.scores[v] = core.add_many([to_rat(b) for b in bs]) / self.blocks
                 else:
                     self.scores[v] = core.var(f"s{v}", "+")
         return self.scores[v]
+
+    def gem_value(self, v, rows):
+        """what the (stubbed) GEMINI returns for the predictions of `rows` under weight version v"""
+        if self.blocks <= 1:
+            return self.score(v)
+        self.score(v)
+        if len(rows) < self.n_rows:
+            return self.block_scores[v][rows[0] // (self.n_rows // self.blocks)]
+        # the GEMINI of the WHOLE data is another quantity than the mean over blocks (larger for MI / MMD): its own symbol
+        if v not in self.whole:
+            self.whole[v] = core.var(f"sw{v}", "+") if self.concrete is None else self.concrete["score"].get(f"w:{v}", 1.3 * float(self.scores[v]) if self.scores[v] == self.scores[v] else float("nan"))
+        return self.whole[v]
 
     def nf(self, v):
         if v not in self.nfs:
@@ -112,8 +139,15 @@ def make_estimator(env, mods, family, alpha, dynamic, max_iter, batch_size_none=
     est._n_selected_features = lambda: _NF(env.nf(env.version))
     est._group_lasso_penalty = lambda: env.pen(env.version)
     est.get_selection = lambda: np.arange(d)
-    est.predict_proba = lambda X: np.zeros((len(X), 2))
-    est._infer = lambda X, retain=True: np.zeros((len(X), 2))
+    def proba(X):
+        # the first column carries the identity of the rows (X[r, 0] == r * d), so that the GEMINI stub knows what it is evaluated on
+        out = np.zeros((len(X), 2))
+        out[:, 0] = np.asarray(X, dtype=float)[:, 0] / d
+        return out
+    est.predict_proba = proba
+    est._infer = lambda X, retain=True: proba(X)
+    if env.blocks > 1:
+        est.batch_size = env.n_rows // env.blocks
     est._compute_grads = lambda X, y_pred, g: [np.zeros(w.shape) for w in est._get_weights()]
 
     def batchify(X, affinity=None, random_state=None):
@@ -126,7 +160,10 @@ def make_estimator(env, mods, family, alpha, dynamic, max_iter, batch_size_none=
             return y
 
         def __call__(self, y_pred, affinity, return_grad=False):
-            s = env.score(env.version)
+            rows = [int(round(float(r))) for r in np.asarray(y_pred)[:, 0]]
+            s = env.gem_value(env.version, rows)
+            if isinstance(s, (int, float)):
+                s = np.float64(s)        # the real objectives return NumPy scalars
             return (s, np.zeros((len(y_pred), 2))) if return_grad else s
     est.get_gemini = lambda: Gem()
     return est
@@ -146,7 +183,7 @@ def reference(env, args, T_obs, d):
     return m, keep, minf
 
 
-def job(family, d, n_batches, max_iter, max_patience, dynamic, restore, nan_allowed, minf_range, y_given=False, sanitise=False, max_outer=None):
+def job(family, d, n_batches, max_iter, max_patience, dynamic, restore, nan_allowed, minf_range, y_given=False, sanitise=False, max_outer=None, val_blocks=1):
     loader.install()
     res = {"paths": 0, "queries": 0, "obligations": [], "violations": [], "validated": 0, "witnesses": 0, "samples": []}
     box = {}
@@ -162,6 +199,7 @@ def job(family, d, n_batches, max_iter, max_patience, dynamic, restore, nan_allo
         sb.SGDOptimizer = Opt
         sb.check_random_state = lambda rs: None
         env = Env(family, d, n_batches, max_iter, max_patience, dynamic, nan_allowed, None)
+        env.blocks = val_blocks
         alpha = core.var("alpha", "+")
         if max_outer is not None:
             globals()["MAX_OUTER"] = max_outer
@@ -199,7 +237,7 @@ def job(family, d, n_batches, max_iter, max_patience, dynamic, restore, nan_allo
         return out, [str(w.message) for w in wl]
 
     ex = Explorer(max_paths=30000, max_depth=400)
-    tagbase = f"{family}/d{d}/b{n_batches}/it{max_iter}/pat{max_patience}/{'dyn' if dynamic else 'static'}/{'restore' if restore else 'norestore'}{'/nan' if nan_allowed else ''}"
+    tagbase = f"{family}/d{d}/b{n_batches}/it{max_iter}/pat{max_patience}/{'dyn' if dynamic else 'static'}/{'restore' if restore else 'norestore'}{'/nan' if nan_allowed else ''}{'/valblocks%d' % val_blocks if val_blocks > 1 else ''}"
     seen = set()
     for out, pc, trace in ex.run(body, setup):
         res["paths"] += 1
@@ -333,11 +371,16 @@ def _viol(res, seen, sig, what, box, tagbase, family, d, n_batches, max_iter, ma
     conc = {"score": {}, "nf": {k: int(vv) for k, vv in ((str(a), b) for a, b in env.nfs.items())}, "pen": {}}
     for ver, s in env.scores.items():
         conc["score"][str(ver)] = "nan" if isinstance(s, float) else float(model.get(f"s{ver}", 1))
+        if env.blocks > 1 and not isinstance(s, float):
+            for r in range(env.blocks):
+                conc["score"][f"{ver}:{r}"] = float(model.get(f"s{ver}b{r}", 1))
+    for ver in env.whole:
+        conc["score"][f"w:{ver}"] = float(model.get(f"sw{ver}", 1))
     for ver in env.pens:
         conc["pen"][str(ver)] = float(model.get(f"pen{ver}", 1)) + 0.001 * ver
     # distinct penalties per version so that the reference can recover versions
     rep = {"family": family, "d": d, "n_batches": n_batches, "max_iter": max_iter, "max_patience": max_patience, "dynamic": dynamic, "restore": restore, "y_given": y_given,
-           "env": conc, "args": {"alpha": float(model.get("alpha", 1)), "alpha_multiplier": float(model.get("mult", 0)), "keep_threshold": float(model.get("keep", 0)),
+           "val_blocks": env.blocks, "env": conc, "args": {"alpha": float(model.get("alpha", 1)), "alpha_multiplier": float(model.get("mult", 0)), "keep_threshold": float(model.get("keep", 0)),
                                  "early_stopping_factor": float(model.get("esf", 0.5)), "min_features": int(box["args"]["min_features"])}, "expect": sig}
     got = replay(rep)
     if got and sig in got:
@@ -360,6 +403,7 @@ def replay(rep, verbose=False):
     try:
         conc = {"score": {k: (float("nan") if v == "nan" else float(v)) for k, v in rep["env"]["score"].items()}, "nf": rep["env"]["nf"], "pen": rep["env"]["pen"]}
         env = Env(rep["family"], rep["d"], rep["n_batches"], rep["max_iter"], rep["max_patience"], rep["dynamic"], False, None, concrete=conc)
+        env.blocks = rep.get("val_blocks", 1)
         a = rep["args"]
         est = make_estimator(env, mods, rep["family"], a["alpha"], rep["dynamic"], rep["max_iter"])
         X = np.arange(2 * rep["d"], dtype=float).reshape(2, rep["d"])
@@ -467,6 +511,11 @@ def jobs(tier):
     for fam in ("SparseLinearModel", "SparseMLPModel"):
         out.append({"name": f"{fam}/sanitise", "target": "checks.c07:job",
                     "kwargs": dict(family=fam, d=2, n_batches=1, max_iter=1, max_patience=1, dynamic=False, restore=True, nan_allowed=False, minf_range=(-1, 3), sanitise=True, max_outer=1),
+                    "timeout": 280 if q else 3000})
+    # mini-batches: the validation score is the size-weighted mean of per-block GEMINIs, which is not the GEMINI of the whole data
+    for fam in ("SparseLinearModel", "SparseMLPModel"):
+        out.append({"name": f"{fam}/d2/b2/it1/pat1/static/restore/valblocks2", "target": "checks.c07:job",
+                    "kwargs": dict(family=fam, d=2, n_batches=2, max_iter=1, max_patience=1, dynamic=False, restore=True, nan_allowed=False, minf_range=(1, 1), max_outer=2, val_blocks=2),
                     "timeout": 280 if q else 3000})
     out.append({"name": "SparseLinearModel/precomputed-affinity", "target": "checks.c07:job",
                 "kwargs": dict(family="SparseLinearModel", d=2, n_batches=1, max_iter=1, max_patience=1, dynamic=False, restore=True, nan_allowed=False, minf_range=(1, 1), y_given=True, max_outer=2), "timeout": 280 if q else 2400})
